@@ -173,16 +173,33 @@ def rule_strictness(ctx):
     import re._parser as sre
     pats = [k for k in m.consts if k.startswith("_URI_PAT_")]
     ctx.require(len(pats) >= 8, "URI patterns not found")
-    for k in pats:
+    # how each pattern is applied: .fullmatch() needs no end anchor, .match() needs an end anchor that does not let a trailing newline through
+    uses = {}
+    for f in m.funcs.values():
+        for c in calls_in(f.node):
+            if isinstance(c.func, ast.Attribute) and c.func.attr in ("match", "search", "fullmatch"):
+                uses.setdefault(norm.text(c.func.value), set()).add(c.func.attr)
+    generic = set()
+    for c in calls_in(fn.node):
+        if isinstance(c.func, ast.Attribute) and c.func.attr in ("match", "search", "fullmatch"):
+            generic.add(c.func.attr)  # check_or_raise_uri applies a pattern chosen at run time
+    for k in pats + [x for x in m.consts if x == "_CUSTOM_ATTRIBUTE"]:
         e = m.consts[k]
         ok = isinstance(e, ast.Call) and call_name(e) == "re.compile" and isinstance(e.args[0], ast.Constant)
+        end = None
         if ok:
             try:
                 p = sre.parse(e.args[0].value)
-                ok = str(p[0][0]) == "AT" and str(p[0][1]) == "AT_BEGINNING" and str(p[-1][0]) == "AT" and str(p[-1][1]) == "AT_END"
+                ok = str(p[0][0]) == "AT" and str(p[0][1]) == "AT_BEGINNING" and str(p[-1][0]) == "AT"
+                end = str(p[-1][1]) if ok else None
             except Exception:
                 ok = False
-        ctx.ob(f"{k} is anchored ^...$", ok, "URI pattern would accept a valid prefix followed by garbage", m.relpath)
+        how = uses.get(k, set()) | (generic if k.startswith("_URI_PAT_") else set())
+        full = how == {"fullmatch"}
+        ctx.ob(f"{k} is anchored at the beginning", ok or full, "URI pattern would accept garbage followed by a valid suffix", m.relpath)
+        ctx.ob(f"{k} must match up to the very end of the string", full or (ok and end == "AT_END_STRING" and "search" not in how),
+               f"end anchor is {end or 'missing'} and the pattern is applied with {sorted(how) or '?'}: `$` also matches before a trailing newline, "
+               f"so 'com.myapp.topic\\n' is accepted as a URI", m.relpath)
     matchers = [c for c in calls_in(fn.node) if isinstance(c.func, ast.Attribute) and c.func.attr in ("match", "search", "fullmatch")]
     ctx.ob("check_or_raise_uri uses .match on the anchored pattern", len(matchers) == 1 and matchers[0].func.attr in ("match", "fullmatch"), "changed", fn.loc())
     # message formats from the class docstrings
